@@ -53,3 +53,56 @@ def evaluate_with_modes(inner):
         return inner(ctx, case)
     evaluate.__wrapped__ = inner
     return evaluate
+
+
+@contextlib.contextmanager
+def warnings_as_errors():
+    """What `python -W error` does, scoped to the calls made inside: a warning the library issues becomes an exception."""
+    import warnings
+    with warnings.catch_warnings():
+        warnings.simplefilter('error')
+        yield
+
+
+@contextlib.contextmanager
+def decimal_context(prec=9, trap_inexact=False):
+    """The caller's thread runs with a non-default decimal context (decimal.BasicContext has prec=9)."""
+    import decimal
+    ctx = decimal.Context(prec=prec)
+    if trap_inexact:
+        ctx.traps[decimal.Inexact] = True
+    with decimal.localcontext(ctx):
+        yield
+
+
+@contextlib.contextmanager
+def stdin_replaced(obj):
+    """sys.stdin is None (daemon, fd 0 closed) or an object without .encoding (a harness's BytesIO)."""
+    import sys
+    old = sys.stdin
+    sys.stdin = obj
+    try:
+        yield
+    finally:
+        sys.stdin = old
+
+
+def call_at_depth(f, headroom):
+    """Calls f() with only `headroom` frames left below the recursion limit (a logging call from deep recursion);
+    returns (result, exception)."""
+    import sys
+    limit = sys.getrecursionlimit()
+
+    def down(n):
+        if n <= 0:
+            try:
+                return f(), None
+            except BaseException as e:  # noqa
+                return None, e
+        return down(n - 1)
+    depth = 0
+    fr = sys._getframe()
+    while fr is not None:
+        depth += 1
+        fr = fr.f_back
+    return down(max(0, limit - depth - headroom - 2))
